@@ -23,7 +23,7 @@ impl Prop for C12 {
         "exploration"
     }
     fn rule(&self) -> String {
-        "run kinds. lib: seeded valid writer history (any interleaving, all layer sets; one run in twelve with 65..300 files of which 1-3 stay open across dozens of others; now and then 17..1000 recipients) written by the library, then linear_extract into a seeded subset of the names (empty, one, some, all, plus a name that is not in the archive), each chosen name with its own simulated sink under a seeded transfer schedule (1 byte, 1..n, Interrupted bursts): every chosen sink must hold exactly the model's bytes for that name (= what get_file returns, C01/C10), nothing else exists to receive data, the result is Ok. nomark / cutblock: the format model's foreign writer builds an archive (all layer sets) whose index is intact but whose block stream has no end-of-data marker, or is cut inside a content block: the archive opens, and linear_extract must return Err (the model first checks that the bytes following the blocks cannot be mistaken for a marker). sinkfail: the first chosen sink fails at its k-th write: the result must be Err. distinct_nontrivial = distinct (kind, variant, layers, subset class, interleaved, sink schedule kind, outcome) signatures.".into()
+        "run kinds. lib: seeded valid writer history (any interleaving, all layer sets; one run in twelve with 65..300 files of which 1-3 stay open across dozens of others; now and then 17..1000 recipients) written by the library, then linear_extract into a seeded subset of the names (empty, one, some, all, plus a name that is not in the archive), each chosen name with its own simulated sink under a seeded transfer schedule (1 byte, 1..n, Interrupted bursts): every chosen sink must hold exactly the model's bytes for that name (= what get_file returns, C01/C10), nothing else exists to receive data, the result is Ok. nomark / cutblock: the format model's foreign writer builds an archive (all layer sets) whose index is intact but whose block stream has no end-of-data marker, or is cut inside a content block - two times in three so that the byte right before the index, where the marker should be, is FE / 00 / 01 / FF (for a missing marker: a tiny last file whose SHA-256 ends with that byte); at production constants half of these runs put 4..7 MiB of a file that is not chosen after the small chosen one -: the archive opens, and linear_extract must return Err (the model first checks that the bytes following the blocks cannot be mistaken for a marker). sinkfail: the first chosen sink fails at its k-th write: the result must be Err. distinct_nontrivial = distinct (kind, variant, layers, subset class, interleaved, sink schedule kind, outcome) signatures.".into()
     }
     fn assumptions(&self) -> Vec<String> {
         vec!["archives with an early or duplicated marker, reused ids or other hostile shapes are C08 inputs, not C12 ones".into()]
@@ -56,15 +56,23 @@ impl Prop for C12 {
             ops = gen_many_files(&mut rng, n, ll, 40);
         }
         maybe_many_recipients(&mut rng, &mut cfg, 40);
+        // production constants, truncated shapes: a small chosen file followed by MiB of a file that is not chosen
+        let far_tail = big && (mode == M_NOMARK || mode == M_CUTBLOCK) && rng.chance(1, 2);
+        if far_tail {
+            cfg.level = cfg.level.min(3);
+            let n = rng.range(4 << 20, 7 << 20) as usize + rng.usize_below(4096);
+            ops = vec![WOp::Add { name: Name::lit("wanted"), data: Data::Text { n: rng.range(1, 3000) as usize, seed: rng.u64() }, src: Src::exact() }, WOp::Add { name: Name::lit("ignored"), data: Data::Rand { n, seed: rng.u64() }, src: Src::exact() }, WOp::Finalize];
+        }
         let mut case = Case::new("C12", cfg, ops);
         case.params.insert("mode".into(), mode);
-        case.params.insert("subset".into(), match rng.below(5) {
+        case.params.insert("subset".into(), if far_tail { 1 } else { match rng.below(5) {
             0 => 0,
             1 => 1 << rng.below(6),
             2 => 0x3f,
             _ => rng.below(64) as i64,
-        });
-        case.params.insert("extra_name".into(), i64::from(rng.chance(1, 4)));
+        } });
+        case.params.insert("far_tail".into(), i64::from(far_tail));
+        case.params.insert("extra_name".into(), i64::from(!far_tail && rng.chance(1, 4)));
         case.params.insert("plan_seed".into(), (rng.u64() >> 1) as i64);
         case.params.insert("fail_call".into(), rng.range(0, 6) as i64);
         case.sink = if big { Sched::Full } else { Sched::make(&mut rng, true) };
@@ -79,12 +87,27 @@ impl Prop for C12 {
         let par = refmla::Params { chunk: vc.chunk as usize, block: vc.block as usize };
         let mut expect_err = false;
         let image: Vec<u8> = if mode == M_NOMARK || mode == M_CUTBLOCK {
-            let files: Vec<(String, Vec<u8>)> = model.order.iter().map(|n| (n.clone(), model.files[n].clone())).collect();
+            let mut files: Vec<(String, Vec<u8>)> = model.order.iter().map(|n| (n.clone(), model.files[n].clone())).collect();
             let mut prng = Rng::new(case.param("plan_seed", 1) as u64);
             let mut plan = Vec::new();
-            for _ in 0..prng.range(0, 10) {
+            let far_tail = case.param("far_tail", 0) == 1;
+            for _ in 0..prng.range(0, if far_tail { 1 } else { 10 }) {
                 if !files.is_empty() {
                     plan.push((prng.usize_below(files.len()), prng.range(1, 3 * par.chunk as u64) as usize));
+                }
+            }
+            // the byte that ends up right before the index, where the end marker should be, is made to LOOK like a block
+            // type (FE end marker, 00 / 01 / FF): for a missing marker it is the last byte of the last stored hash, so
+            // one more tiny file is added whose SHA-256 ends with that byte
+            let look = *prng.pick(&[0xFEu8, 0xFE, 0x00, 0x01, 0xFF]);
+            if mode == M_NOMARK && prng.chance(1, 2) {
+                for k in 0..100_000u32 {
+                    let content = format!("z{k}").into_bytes();
+                    if sha256(&content)[31] == look {
+                        crate::seams::fired("last_byte_before_index_looks_like_a_block_type");
+                        files.push(("zz-last".to_string(), content));
+                        break;
+                    }
                 }
             }
             let full = refmla::well_formed_stream(&files, &plan);
@@ -99,8 +122,20 @@ impl Prop for C12 {
                 if content.is_empty() {
                     full[..marker].to_vec()
                 } else {
-                    let (at, n) = content[prng.usize_below(content.len())];
-                    full[..at + prng.range(1, n as u64 - 1) as usize].to_vec()
+                    // the last content block with data (so that in the far-tail shape MiB of skipped data precede the cut)
+                    let (at, n) = if far_tail { *content.last().unwrap() } else { content[prng.usize_below(content.len())] };
+                    let mut k = prng.range(1, n as u64 - 1) as usize;
+                    if far_tail {
+                        k = k.max(n.saturating_sub(1 << 20).max(1));
+                    }
+                    // move the cut forward (at most 8 KiB) until the last byte kept looks like a block type
+                    if prng.chance(2, 3) {
+                        if let Some(d) = (0..8192.min(n - 1 - k)).find(|d| full[at + k + d - 1] == look) {
+                            crate::seams::fired("last_byte_before_index_looks_like_a_block_type");
+                            k += d;
+                        }
+                    }
+                    full[..at + k].to_vec()
                 }
             };
             stream.extend_from_slice(&full[idx.at..]);
